@@ -493,6 +493,13 @@ def r16e(ctx: Context) -> None:
                             if isinstance(sub, ast.Name) and sub.id not in names:
                                 names.add(sub.id)
                                 changed = True
+                # implicit flow: what is assigned under a test that carries the flag carries it too
+                if isinstance(node, (ast.If, ast.While)) and carries(func, node.test):
+                    for stmt in node.body + node.orelse:
+                        for sub in ast.walk(stmt):
+                            if isinstance(sub, ast.Name) and isinstance(sub.ctx, ast.Store) and sub.id not in names:
+                                names.add(sub.id)
+                                changed = True
             for site in prog.sites_in(func):
                 if site.wild:
                     continue
@@ -522,7 +529,8 @@ def r16e(ctx: Context) -> None:
             offending = [s for s in body if isinstance(s, (ast.Return, ast.Raise, ast.Break, ast.Continue)) or (isinstance(s, ast.Expr) and isinstance(s.value, ast.Call) and "exit_application" in norm(s.value))]
             key = func_key(func, test)
             if isinstance(node, ast.While):
-                offending = [node]
+                # a loop that only assembles text under the flag is message detail; one that can leave the function is not
+                offending = [s for s in offending if not isinstance(s, (ast.Break, ast.Continue))]
             if offending:
                 rule.fail(key, where(func, offending[0]), f"control flow ('{norm(offending[0])[:60]}') depends on '{norm(test)[:60]}', which is computed from --stack-trace: the option changes what the run does, not only what its messages say")
             else:
